@@ -336,6 +336,7 @@ type genOpts struct {
 	clean    bool // avoid the constructs listed as known findings
 	radix    bool // the object will be printed with *print-radix* t
 	escape   bool // the object will be printed with *print-readably* nil
+	pretty   bool // the object will be printed with *print-pretty* t
 	maxDepth int
 	maxWidth int
 }
@@ -355,9 +356,18 @@ func randLeaf(r *rand.Rand, g genOpts) *O {
 		case 7:
 			o = randChar(r)
 		case 8, 9, 10:
-			if g.clean {
+			switch {
+			case g.clean && !g.pretty && r.IntN(3) == 0:
+				// a name that needs |...|: fine in flat printing (under pretty it is a known finding)
+				rs := []rune(randPlainName(r))
+				for k := 1 + r.IntN(2); 0 < k; k-- {
+					at := r.IntN(len(rs) + 1)
+					rs = append(rs[:at], append([]rune{rune(flatOnlyNameChars[r.IntN(len(flatOnlyNameChars))])}, rs[at:]...)...)
+				}
+				o = leaf("sym", string(rs))
+			case g.clean:
 				o = leaf("sym", randPlainName(r))
-			} else {
+			default:
 				o = leaf("sym", strings.TrimLeft(randAnyName(r), ":"))
 			}
 		case 11, 12:
@@ -459,6 +469,10 @@ func randObj(r *rand.Rand, g genOpts, depth int) *O {
 
 const cleanNamePunct = "-*+<>=_$%^~."
 
+// flatOnlyNameChars make a symbol name need |...|; such symbols round-trip
+// when printed flat and are a known finding only under *print-pretty* t.
+const flatOnlyNameChars = " \t\n\r\"'(),;`#!&/[]{}\x7f"
+
 // Three entries of the avoid set follow known_findings.json: once the finding
 // is no longer open the construct is generated in the clean stream as well.
 var (
@@ -497,6 +511,9 @@ func dirtyLeaf(o *O, g genOpts) string {
 	switch o.K {
 	case "sym", "kw":
 		if o.V == "" {
+			if o.K == "sym" && !g.pretty {
+				return ""
+			}
 			return o.K + "-empty"
 		}
 		if o.K == "sym" && numericLooking(o.V) {
@@ -507,6 +524,7 @@ func dirtyLeaf(o *O, g genOpts) string {
 			case 'a' <= r && r <= 'z', 'A' <= r && r <= 'Z', '0' <= r && r <= '9':
 			case r < 0x80 && strings.ContainsRune(cleanNamePunct, r):
 			case r == '?' && !avoidQuestionSym:
+			case o.K == "sym" && !g.pretty && r < 0x80 && strings.ContainsRune(flatOnlyNameChars, r):
 			default:
 				return o.K + "-special-char"
 			}
@@ -599,11 +617,11 @@ type probe struct {
 
 var (
 	catalogue []probe
-	allCtx    = []int{0, 1, 2, 3, 4, 5, 6, 7, 8}
+	allCtx    = []int{0, 1, 2, 3, 4, 5, 6, 7, 8, 9}
 	fewCtx    = []int{0, 2}
 )
 
-const nCtx = 9
+const nCtx = 10
 
 // inContext wraps a leaf in one of the fixed container contexts.
 func inContext(l *O, ctx int) *O {
@@ -640,6 +658,9 @@ func inContext(l *O, ctx int) *O {
 			}
 		}
 		return o
+	case 9:
+		// escaped strings before the leaf: the reader's escape buffer must not leak into the next token
+		return &O{K: "list", E: []*O{leaf("str", "line1\nline2"), l.clone(), leaf("str", "q\"uote\\"), l.clone(), a()}}
 	}
 	panic("ctx")
 }
